@@ -381,11 +381,28 @@ def prepare(tier, seed):
                     continue
                 if dd['verdict'] != 'ok' or dd['model_verdict'] != 'ok':
                     continue
-                g = groups.setdefault((dd['kind'], dd['region']), [])
-                if len(g) < 3:
+                g = groups.setdefault((dd['kind'], dd['region'], dd['stream']), [])
+                if len(g) < 40:
                     g.append((dd['feature'], c['def'], dd['id']))
-            for g in groups.values():
-                suspects += g
+            # keep, per group, the three smallest the model's rustc rules accept (an ambiguous or name-colliding
+            # definition does not compile anyway)
+            try:
+                import t3gen as _T
+                flat = [x for g in groups.values() for x in g]
+                tinfo = {}
+                items = []
+                for (f_, d_, i_) in flat:
+                    try:
+                        items.append((i_, f_, _T.t3ify(d_)))
+                    except Exception:
+                        pass
+                tinfo = _T.get_infos(items)
+                for key_, g in groups.items():
+                    good = [x for x in g if 'err' not in tinfo.get(x[2], {'err': 1}) and tinfo[x[2]].get('accepted', True)]
+                    suspects += good[:2]
+            except Exception:
+                for g in groups.values():
+                    suspects += g[:3]
             suspects = suspects[:(12 if tier == 'quick' else 40)]
             prep['t12']['suspects'] = len(suspects)
             prep['t12']['ill_suspects'] = len(ill_suspects)
